@@ -47,7 +47,7 @@ CHECKS = {
     "C15": dict(
         engine="s3sim", category="exploration", design_ref="DESIGN.md §4 C15",
         technique="deterministic simulation: real get_latest_volume/search against an in-process S3 endpoint behind the reqwest::get seam, seeded + (thorough) exhaustive bucket shapes, request log as call-count oracle, request-failure/latency injection",
-        text="The real get_latest_volume (N=999) and the guarded search wrapper (N=1..64) run against a simulated rotating bucket put into a shape (N, newest, populated); the oracle is the reference bucket's newest directory and the endpoint's own request log. Quick: all shapes N<=16 + 20k seeded production shapes + 3k faulted runs; thorough: every shape for N<=64 and all 999x1000 production shapes. Exploration (sampling) in quick, complete enumeration of the shape space in thorough - still executions of the real code, not a proof.",
+        text="The real get_latest_volume (N=999) and the guarded search wrapper (N=1..64) run against a simulated rotating bucket put into a shape (N, newest, populated); the oracle is the reference bucket's newest directory and the endpoint's own request log. Quick: all shapes N<=24 + 20k seeded production shapes + 3k faulted runs; thorough: every shape for N<=64 and all 999x1000 production shapes. Exploration (sampling) in quick, complete enumeration of the shape space in thorough - still executions of the real code, not a proof.",
         note="Trusted: the in-process endpoint's S3 listing semantics (byte-order keys, string-prefix match, max-keys), reqwest::Response built from http::Response, tokio's paused clock. Upload times are distinct whole seconds. Not covered: the layers below reqwest::get."),
 }
 
